@@ -60,6 +60,13 @@ CHECKS.update({
         note="trusted: alpha (canonical serialisation of property maps) in vf/props/c20.py, TLC.", design="5 C20"),
 })
 
+CHECKS.update({
+    "C10": dict(engine="Serialise",
+        technique="TLA+ spec of Emit(tree, sorted) over insertion histories with commutation, balance and same-lines invariants checked by TLC; every history replayed through the real API (order, purity, idempotence); hash-seed configurations in fresh interpreters; random trees validated by TLC trace spec",
+        text="TLC enumerates all insertion histories (length <=4/5) and proves that commuting neighbouring insertions leaves the sorted output unchanged, that output is accepted by a pushdown acceptor and that sorted/unsorted contain the same lines; every history is executed for real and its line sequence, byte-identity of two calls and a full tree snapshot (incl. value.params) are compared; 120+ programs run under PYTHONHASHSEED 0/1/2/4242; random typed trees are checked against Emit by Trace_Serialise.",
+        note="trusted: token alpha of the wire (independent unfolding), snapshot function, TLC. Four hash seeds.", design="5 C10"),
+})
+
 NOT_YET = "not yet built in this round (specification and binding under construction; see DESIGN.md section 10)"
 
 
